@@ -111,3 +111,22 @@ func Describe(evs []fakemysql.Event) string {
 	}
 	return b.String()
 }
+
+// infraMarks are fragments of error texts that show trouble of the test infrastructure
+// (the proxy could not get or keep a backend connection in time on a loaded machine),
+// as opposed to a decision of the proxy about the statement.
+var infraMarks = []string{"getbackendconn failed", "create resource failed", "context deadline exceeded", "i/o timeout",
+	"connection refused", "broken pipe", "bad connection", "no backend", "connection reset", "unexpected eof",
+	"use of closed network connection", "invalid connection", "get conn timeout", "connection was bad", "resource pool"}
+
+// InfraTrouble reports whether an error text returned to the client shows infrastructure
+// trouble. Such a case is inconclusive (Skip), never a violation and never a "rejection".
+func InfraTrouble(msg string) bool {
+	l := strings.ToLower(msg)
+	for _, m := range infraMarks {
+		if strings.Contains(l, m) {
+			return true
+		}
+	}
+	return false
+}
